@@ -198,6 +198,32 @@ def run_property(pid, tier="quick", replay=None, repo_root=None, write_evidence=
                         verdicts.append(extra)
                         results.append(extra)
                         path_note = extra.detail
+                        # positive evidence about the added path: every value-returning path of the confirmed version depends on certain
+                        # parameters (mentions them in its branch decisions, effects or returned term); a return path that does not
+                        # mention one of them computes its result without it
+                        try:
+                            import re as _re
+                            from . import equiv as _eq
+                            rnode = ref.mods[short].funcs[name].node
+                            params = [a.arg for a in rnode.args.args if a.arg not in ("verbose", "n_jobs", "self")]
+                            def rets(fn):
+                                return [pf for pf in _eq.path_facts(fn) if pf["outcome"] and pf["outcome"][0] == "return" and pf["outcome"][1] != "None"]
+                            def mentions(pf, p_):
+                                return _re.search(r"(?<![\w.])%s(?![\w])" % _re.escape(p_), repr((pf["decisions"], pf["effects"], pf["outcome"]))) is not None
+                            rr_ = rets(rnode)
+                            universal = [p_ for p_ in params if rr_ and all(mentions(pf, p_) for pf in rr_)]
+                            for pf in rets(f.node):
+                                miss = [p_ for p_ in universal if not mentions(pf, p_)]
+                                if miss:
+                                    conds = ", ".join("%s is %s" % (k[:40], v) for k, v in list(pf["decisions"].items())[:3])
+                                    pv = named("PATHS", f, "every value-returning path depends on the parameters every confirmed path depends on",
+                                               "the return path taken when [%s] yields `%s` without using parameter(s) %s, on which every return path of the "
+                                               "confirmed version depends" % (conds, str(pf["outcome"][1])[:60], ", ".join("`%s`" % m_ for m_ in miss)), rr[0])
+                                    verdicts.append(pv)
+                                    results.append(pv)
+                                    break
+                        except Exception:
+                            pass
         except Exception as e:
             path_note = "path gate unavailable: %s" % e
     equiv_note = None
